@@ -168,6 +168,9 @@ def exec (cs : List Caller) (base : Idx) (sched : List Nat) : State := run cs (i
 /-- every caller has returned -/
 def allDone (cs : List Caller) (σ : State) : Prop := ∀ i, i < cs.length → σ.pc i = .done
 
+instance (cs : List Caller) (σ : State) : Decidable (allDone cs σ) := by
+  unfold allDone; infer_instance
+
 def allDoneB (cs : List Caller) (σ : State) : Bool := (List.range cs.length).all fun i => σ.pc i == .done
 
 /-- indices issued on branch `b`, in commit order -/
